@@ -48,6 +48,35 @@ func genLivenessFacts(repo string, emit func(name, leanDef string, err error)) {
 		emit("panicSitesInBlockPaths", "", err)
 		return
 	}
+	// ---- which x/… packages app/app.go imports at all (a module that is not imported is not wired)
+	{
+		wired := map[string]bool{}
+		if pk := ix.Pkgs["app"]; pk != nil {
+			for _, f := range pk.Files {
+				for _, p := range f.Imports {
+					if strings.HasPrefix(p, repoModule+"x/") {
+						d := strings.TrimPrefix(p, repoModule)
+						for _, suf := range []string{"/keeper", "/types", "/client", "/simulation"} {
+							if i := strings.Index(d, suf); i > 0 {
+								d = d[:i]
+							}
+						}
+						wired[d] = true
+					}
+				}
+			}
+		}
+		var ws []string
+		for w := range wired {
+			ws = append(ws, w)
+		}
+		sort.Strings(ws)
+		var werr error
+		if len(ws) < 5 {
+			werr = fmt.Errorf("only %d x/ modules found in app/*.go imports", len(ws))
+		}
+		emit("appWiredCustomModules", "/-- the x/… module directories imported by package app (app/*.go) -/\ndef appWiredCustomModules : List String := "+leanStrListNL(ws), werr)
+	}
 	// ---- all functions by key, and methods by bare name
 	all := map[fnKey]*xFunc{}
 	byMethodName := map[string][]*xFunc{}
